@@ -212,6 +212,12 @@ func (hm *HostsMap) rebuildMatchFiles() (matchFiles []*MatchFile) {
 			e1 := entryList[i]
 			e2 := entryList[j]
 			if e1.headers.equals(e2.headers) {
+				// case insensitive, so nested paths are also properly ordered when a
+				// begin (case insensitive) path is mixed with case sensitive ones
+				p1, p2 := strings.ToLower(e1.path), strings.ToLower(e2.path)
+				if p1 != p2 {
+					return p1 > p2
+				}
 				return e1.path > e2.path
 			}
 			return e1.hasFilter()
@@ -302,11 +308,17 @@ func (hm *HostsMap) rebuildMatchFiles() (matchFiles []*MatchFile) {
 // Exact is removed from the check because it always has priority and never overlaps
 // Regex is removed because all of its entries are processed together, giving priority to longer regexps
 func overlaps(e1, e2 *HostsMapEntry) bool {
+	p1, p2 := e1.path, e2.path
+	if e1.match == MatchBegin || e2.match == MatchBegin {
+		// begin matches case insensitively, so it overlaps
+		// despite the case of the other path
+		p1, p2 = strings.ToLower(p1), strings.ToLower(p2)
+	}
 	return e1.match != e2.match &&
-		e1.path != e2.path &&
+		p1 != p2 &&
 		e1.match != MatchExact && e2.match != MatchExact &&
 		e1.match != MatchRegex && e2.match != MatchRegex &&
-		strings.HasPrefix(e1.path, e2.path)
+		strings.HasPrefix(p1, p2)
 }
 
 func findOrCreateMatchFileIfOverlaps(order *list.List, e1, e2 *HostsMapEntry) {
